@@ -46,12 +46,30 @@ SCRIPT_CASES = {
         "header_directory(env.srcdir.append('second'))])\n",
         '#include "which.h"\nint main(void) { return WHICH - 1; }\n',
         {'first/which.h': '#define WHICH 1\n', 'second/which.h': '#define WHICH 2\n'}, 'run0', {'CPATH': '{src}/first'}, {}),
+    # a precompiled header used by the sources of a shared library: options added to the sources because of the kind of
+    # target (pic) reach the header too, so a compiler told to insist on a valid precompiled header accepts it
+    'pch-in-shared-library': (
+        "lib = shared_library('foo', files=['foo.c'], pch='pre.h', compile_options=['-Winvalid-pch', '-Werror'])\n"
+        "executable('prog', files=['main.c'], libs=[lib])\n",
+        'int foo(void);\nint main(void) { return foo(); }\n',
+        {'pre.h': '#define PRE_VAL 3\n', 'foo.c': 'int foo(void) { return PRE_VAL - 3; }\n'}, 'run0', {}, {}),
+    'pch-in-static-library-linked-into-shared': (
+        "st = static_library('st', files=['foo.c'], pch='pre.h', compile_options=['-Winvalid-pch', '-Werror'])\n"
+        "sh = shared_library('sh', files=['bar.c'], libs=[st])\n"
+        "executable('prog', files=['main.c'], libs=[sh])\n",
+        'int bar(void);\nint main(void) { return bar(); }\n',
+        {'pre.h': '#define PRE_VAL 3\n', 'foo.c': 'int foo(void) { return PRE_VAL - 3; }\n',
+         'bar.c': 'int foo(void);\nint bar(void) { return foo(); }\n'}, 'run0', {}, {}),
     # another compiler driver and an explicitly chosen linker: warnings as errors must still accept clean code
     'clang-with-ld.bfd-warnings-as-errors': (
         "executable('prog', files=['main.c'], compile_options=[opts.warning('all', 'error')])\n",
         'int main(void) { return 0; }\n', {}, 'run0', {'CC': 'clang', 'LD': 'ld.bfd'}, {}),
 }
 PLACEMENTS = {
+    # several global_options() / global_link_options() calls accumulate
+    'global-then-more': "global_options([%(opt)s], lang='c')\nglobal_options([opts.define('UNRELATED')], lang=['c', 'c++'])\n"
+                        "global_link_options([%(lopt)s])\nglobal_link_options(['-Wl,--as-needed'])\n"
+                        "executable('prog', files=['main.c'])\n",
     'target': "executable('prog', files=['main.c'], compile_options=[%(opt)s], link_options=[%(lopt)s])\n",
     'global': "global_options([%(opt)s], lang='c')\nglobal_link_options([%(lopt)s])\nexecutable('prog', files=['main.c'])\n",
 }
